@@ -17,6 +17,7 @@ Oracle    : a stack model.  mode = mode of the topmost mode frame (or None); con
 from __future__ import annotations
 
 import gc
+import threading
 
 from hypothesis import strategies as st
 
@@ -27,20 +28,22 @@ from ..build import build_query
 from ..qcheck import satisfying
 
 from entity_query_language import symbolic_mode, rule_mode, let
-from entity_query_language.symbolic import (in_symbolic_mode, SymbolicExpression, _symbolic_mode)
+from entity_query_language.symbolic import (in_symbolic_mode, SymbolicExpression, _set_symbolic_mode)
 from entity_query_language.enums import EQLMode
 
 ID = "C08"
 TITLE = "Symbolic mode is confined to its block"
 TECHNIQUE = "model-based (schedule) property testing with Hypothesis: op sequences vs a stack model, probed after every step"
 RULE = ("cases = schedules of <=25 ops over {enter query-mode / rule-mode / mode-with-query / with-query block, leave, "
-        "raise through n blocks, create / advance / drain / close / drop a result iterator} drawn by Hypothesis; after every "
+        "raise through n blocks, create / advance / drain / close / drop a result iterator, run the probes in a second thread "
+        "that is started and joined inside the step} drawn by Hypothesis; after every "
         "op the mode queries, the expression context and behavioural probes are compared with a stack model. Non-trivial "
         "= an iterator is suspended across a block boundary (created or advanced on one side of a block entry/exit and "
-        "advanced or finalised on the other) or an exception unwinds >= 2 frames; distinct = canonical JSON.")
+        "advanced or finalised on the other), an exception unwinds >= 2 frames, or a second thread is probed while this one is "
+        "inside a block; distinct = canonical JSON.")
 BUDGET = {"quick": (4, 300), "thorough": (16, 1200)}
-ASSUMPTIONS = ["single thread: the schedules are the interleavings of block entry/exit and iterator life-cycle, all owned "
-               "by the harness", "the bitwise operators &, |, ~ outside a block are not in the guarded set and are not probed"]
+ASSUMPTIONS = ["the schedules are the interleavings of block entry/exit and iterator life-cycle, all owned by the harness; a "
+               "second thread only ever runs while the first waits for it (started and joined inside one step)", "the bitwise operators &, |, ~ outside a block are not in the guarded set and are not probed"]
 
 _V = ["var", 0]
 THE = {"one": ["cmp", "==", ["attr", _V, "k"], ["const", 2]], "none": ["cpred", "IsBig", [["attr", _V, "ref"]]],
@@ -63,7 +66,7 @@ def _schedule(draw, tier):
     ops = []
     for _ in range(draw(st.integers(3, 25))):
         k = draw(st.sampled_from(["enter", "enter", "leave", "leave", "raise", "new", "new", "next", "next", "next",
-                                  "drain", "close", "drop", "the", "the", "next_raise"]))
+                                  "drain", "close", "drop", "the", "the", "next_raise", "thread"]))
         if k == "enter":
             ops.append(["enter", draw(st.sampled_from(ENTER_KINDS)), draw(st.integers(0, len(POOL) - 1))])
         elif k == "raise":
@@ -74,6 +77,8 @@ def _schedule(draw, tier):
             ops.append([k, draw(st.integers(0, 5))])
         elif k == "the":
             ops.append(["the", draw(st.sampled_from(["one", "none", "multi"]))])
+        elif k == "thread":
+            ops.append(["thread", draw(st.sampled_from(["probe", "probe", "sym", "rule"]))])
         else:
             ops.append([k])
     return {"ops": ops}
@@ -237,6 +242,32 @@ def check(case) -> Outcome:
                     classes.add("exception_through_2plus")
             elif k == "new":
                 iters.append({"gen": queries[op[1]].evaluate(), "qi": op[1], "pos": 0, "epoch": epoch, "alive": True})
+            elif k == "thread":
+                # another flow of control that never entered a block is outside every block, whatever this one has open;
+                # a block it opens and leaves itself is its own.  The thread is started and joined here: the harness owns
+                # the schedule.
+                box = {}
+
+                def work(kind=op[1]):
+                    try:
+                        box["first"] = _probe(None, probe_var)
+                        if kind != "probe":
+                            with (symbolic_mode() if kind == "sym" else rule_mode()):
+                                box["inside"] = _probe(EQLMode.Query if kind == "sym" else EQLMode.Rule, probe_var)
+                            box["after"] = _probe(None, probe_var)
+                    except Exception as e:          # reported below, never swallowed
+                        box["error"] = f"{type(e).__name__}: {e}"
+                th = threading.Thread(target=work)
+                th.start()
+                th.join()
+                bad_ = box.get("error") or box.get("first") or box.get("inside") or box.get("after")
+                if bad_:
+                    return fail("behaviour_mismatch_other_thread",
+                                f"step {step} {op}: in a thread that entered no block of its own (this flow has open frames "
+                                f"{[f['kind'] for f in frames]}): {bad_}", classes=sorted(classes), nontrivial=nontrivial)
+                classes.add("other_thread_while_inside" if model_mode() is not None else "other_thread_while_outside")
+                if model_mode() is not None:
+                    nontrivial = True
             elif k == "the":
                 # evaluating the(...) here, inside whatever blocks are open; it may raise by contract
                 try:
@@ -346,7 +377,7 @@ def check(case) -> Outcome:
                     it["gen"].close()
                 except Exception:
                     pass
-        _symbolic_mode.set(None)
+        _set_symbolic_mode(None)
         del SymbolicExpression._symbolic_expression_stack_[:]
         FAULT.update(armed=False, calls=0, at=0)
     return Outcome(True, nontrivial=nontrivial, classes=sorted(classes))
